@@ -8997,6 +8997,21 @@ class SSHServerConnectionOptions(SSHConnectionOptions):
             authorized_client_keys = \
                 cast(List[str], config.get('AuthorizedKeysFile'))
 
+            if authorized_client_keys:
+                # As with sshd, a user whose key file is missing or has no
+                # usable entries simply has no keys in that file
+                usable = []
+
+                for filename in authorized_client_keys:
+                    try:
+                        read_authorized_keys(filename)
+                    except (OSError, ValueError):
+                        continue
+
+                    usable.append(filename)
+
+                authorized_client_keys = usable or None
+
         if isinstance(authorized_client_keys, (str, list)):
             self.authorized_client_keys = \
                 read_authorized_keys(authorized_client_keys)
